@@ -7,7 +7,7 @@
    domain; DFXP / SAMI stay at component level (tree walk, text-node matcher, SAMI stage 1) + oracle on the real readers. *)
 From Coq Require Import List ZArith Bool.
 From PV Require Import lib.Sx lib.Str lib.Result model.TextNodes model.TextRead.
-From PV Require Import spec.SpecTextXml spec.SpecTextLines spec.SpecTextRead.
+From PV Require Import spec.SpecTextXml spec.SpecTextLines spec.SpecTextRead spec.SpecTextDfxpStr proofs.TextReadStrFacts.
 From PV Require Import proofs.TextXmlFacts proofs.TextReadVttFacts proofs.TextReadVttTagFacts proofs.TextReadFacts.
 From PV Require Import proofs.TextReadVttDocFacts model.GenText proofs.TextReadEndFacts proofs.TextReadEndVttFacts proofs.TextReadEndVttStripFacts proofs.TextReadEndVttDocFacts proofs.TextReadEndXmlFacts.
 Import ListNotations.
@@ -260,3 +260,29 @@ Example C04_example_vtt_timestamp :
   forallb vtt_item_ok [ITxt [(97, 0)]; IStamp (lit "00:01.000"); IStamp (lit "100:59:59.999"); ITxt [(98, 0)]] = true /\
   node_lines (read_vtt true [ITxt [(97, 0)]; IStamp (lit "00:01.000"); IStamp (lit "100:59:59.999"); ITxt [(98, 0)]]) = [lit "ab"].
 Proof. split; vm_compute; reflexivity. Qed.
+
+(* ---- wave 7 (round 2): DFXP END TO END ON STRINGS (spec/SpecTextDfxpStr.v) ----
+   The text-node matcher on a wrapped source line, EXACT: a first piece that does not begin with white space and has no
+   line end, then any number of (LF, indentation, piece) continuations - the node text is the pieces joined by ONE blank.
+   Nothing is dropped, nothing is glued, interior and trailing blanks of every piece are kept. *)
+Theorem C04_dfxp_text_node_wrapped : forall c w tail, is_space c = false -> forallb nonl (c :: w) = true -> wtail_ok tail ->
+  text_node true ((c :: w) ++ rof tail) = Some ((c :: w) ++ concat (map (fun e => 32 :: snd e) tail)).
+Proof. exact text_node_wrapped. Qed.
+Print Assumptions C04_dfxp_text_node_wrapped.
+
+(* The statement on strings: for EVERY non-empty list of lines of the domain (line_ok: every character of XML Char except
+   CR - & < > quotes ]]> and entity-looking text included -, words that do not begin with white space, any wrap
+   indentation, empty lines) the string render_p writes (characters escaped once, lines separated by <br/>), read by the
+   strict XML content parser and the DFXP reader model, gives EXACTLY the lines a conformant consumer shows:
+   references decoded once, a wrap = one blank, <br/> = line break, no word lost. *)
+Theorem C04_dfxp_str_end_to_end : forall ls, ls <> [] -> Forall (fun l => line_ok l = true) ls ->
+  read_p (render_p ls) = Some (map shown_line ls).
+Proof. exact dfxp_str_end_to_end. Qed.
+Print Assumptions C04_dfxp_str_end_to_end.
+
+Example C04_example_dfxp_str :
+  let ls := [(lit "a &lt; <b> ", [(lit "   ", lit "c ]]> &amp;"); ([9], lit "d")]); ([], []); (lit "x", [])] in
+  forallb line_ok ls = true /\
+  render_p ls = lit "a &amp;lt; &lt;b&gt; " ++ [10] ++ lit "   c ]]&gt; &amp;amp;" ++ [10; 9] ++ lit "d<br/><br/>x" /\
+  read_p (render_p ls) = Some [lit "a &lt; <b>  c ]]> &amp; d"; []; lit "x"].
+Proof. repeat split; vm_compute; reflexivity. Qed.
